@@ -251,7 +251,18 @@ def check_merge(fn, kind):
 def check_hash(fn, kind):
     streams, consts = _streams(fn)
     m = Machine(fn.node, streams, cfg=consts)
-    m.run()
+    try:
+        m.run()
+    except Unknown:
+        if m.budget_misuse:
+            node, bkind, delta = m.budget_misuse[0]
+            if bkind == 'distinct':
+                raise _Bad(norm(node)[:60], 'the scan of a is cut short by a counter that starts at the number of DISTINCT rows of b and '
+                           'drops with every match: with duplicated rows in b it reaches zero while counts are left, and the '
+                           'remaining matches are lost', node)
+            raise _Bad(norm(node)[:60], 'the scan of a is cut short by a counter that is not in step with the counts (off by %d '
+                       'when it is tested)' % delta, node)
+        raise
     loops = []
     for r in m.records:
         if r.loop not in loops:
@@ -283,9 +294,21 @@ def check_hash(fn, kind):
             continue
         cur = ('row', 'A', 1)
         cnt = [v for k, v in atoms.items() if k.startswith('count(A[1])')]
-        if not cnt:
+        left = [v for k, v in atoms.items() if k.startswith('counts left in bag@')]
+        allzero = (left and not left[0]) or any(k.startswith('$allzero:') and v for k, v in rec.entry.items())
+        if allzero and not cnt:
+            # every count of b is used up: nothing can match any more
+            if kind == 'hashintersection':
+                if yields:
+                    raise _Bad('all counts used up', 'a row goes out although no count of b is left')
+                if rec.kind != 'next':
+                    _check_end(m, rec, 'all counts used up')
+                continue
+            pos = False
+        elif not cnt:
             raise Unknown('a probe that is not a test of the count of the current row')
-        pos = cnt[0]
+        else:
+            pos = cnt[0]
         decs = [e for e in rec.eff if e[0] in ('dec', 'inc', 'store', 'bagcall')]
         strict = cfg.get(sname) if sname else None
         what = 'count %s 0%s' % ('>' if pos else '==', (', strict=%s' % strict) if sname and pos else '')
@@ -379,6 +402,9 @@ def run(ctx):
     ctx.attempt(r85, ctx, rep)
     ctx.attempt(r86, ctx, rep)
     ctx.attempt(r87, ctx, rep)
+    rep.rule('R8.8', 'the sort that orders the inputs of the merges is the one C05 decides: run / merge agreement, stable merge, Comparable keys, tuple copies (C05 imported for petl.transform.sorts)')
+    from .common import import_sort_obligations
+    ctx.attempt(import_sort_obligations, ctx, rep, 'R8.8')
 
 
 # ------------------------------------------------------------------------- R8.3
@@ -446,6 +472,13 @@ def r84(ctx, rep):
         for o in rep.obligations[before:]:
             if o.rule == 'R11.3':
                 o.rule = 'R8.4'
+            if o.status == 'undecided' and o.construct.startswith('presorted=False: no sort when') and \
+                    'reverse' not in o.construct:
+                # the merges advance the side with the smaller row: whatever makes the sort unnecessary must at least exclude
+                # a descending view, i.e. look at `reverse`
+                o.status = 'violated'
+                o.message = ('the sort of an input is skipped on a condition that does not look at `reverse` (%s): an input '
+                             'sorted in descending order is then merged as if it were ascending' % o.construct[30:])
         apps = sort_applications(ctx, init)
         opts = {}
         for app in apps:
@@ -680,11 +713,12 @@ def r87(ctx, rep):
     try:
         c04.r41(ctx, sub)
         c04.r42(ctx, sub)
+        c04.r46(ctx, sub)
     finally:
         ctx.report = saved
     k = 0
     for o in sub.obligations:
-        if o.module in ('petl.comparison', 'petl.transform.sorts'):
+        if o.module in ('petl.comparison', 'petl.transform.sorts', 'petl.compat'):
             k += 1
             rep.add('R8.7', (o.module, o.qualname), o.construct, o.status, o.message, o.lineno, o.detail)
     if k < 3:
